@@ -43,6 +43,13 @@ def cases(tier, seed):
             yield {"kind": "svgp", "strategy": strat, "dist": dist, "seed": rnd.randrange(10**6)}
         for lk in ("gauss", "fixed", "fixed+learn", "mt"):
             yield {"kind": "noise", "lik": lk, "seed": rnd.randrange(10**6)}
+        # covariance invariants along histories of state-changing operations (shared driver with C03): the hooks see every
+        # covariance handed out after train steps, load_state_dict, set_train_data, fantasies ...
+        for fam in ("default", "batch", "sgpr", "svgp_whitened", "svgp_unwhitened", "svgp_meanfield"):
+            for _ in range(4 if tier == "quick" else 40):
+                yield {"kind": "history", "family": fam, "length": rnd.randint(3, 6), "seed": rnd.randrange(10**6)}
+            for directed in (["pred", "load_sd", "pred"], ["pred_eager", "load_sd", "load_sd", "pred"], ["pred", "set_data", "pred"], ["pred", "load_sd", "pred_batch"]):
+                yield {"kind": "history", "family": fam, "seq": directed, "seed": rnd.randrange(10**6)}
 
 
 _ST = {}
@@ -159,7 +166,35 @@ def run_case(case, ctx):
     from vf import util
 
     g = util.gen(case["seed"])
-    return {"gram": _gram, "model": _model, "svgp": _svgp, "noise": _noise}[case["kind"]](case, ctx, g)
+    return {"gram": _gram, "model": _model, "svgp": _svgp, "noise": _noise, "history": _history}[case["kind"]](case, ctx, g)
+
+
+def _history(case, ctx, g):
+    import random as _r
+
+    import torch
+
+    from vf import history as H
+
+    rnd = _r.Random(case["seed"])
+    fam = H.FAMILIES[case["family"]](case["seed"] % 1000)
+    ops = [o for o in H.ops_for(case["family"]) if o != "backward"]
+    if "seq" in case:
+        seq = [o for o in case["seq"] if o in H.ops_for(case["family"])]
+    else:
+        seq = ["pred"] + [rnd.choice(ops) for _ in range(case["length"])] + [rnd.choice(["pred", "pred_fpv" if fam.exact else "pred", "pred_eager"])]
+    state = {"fam": fam}
+    m = fam.make()
+    for op in seq:
+        try:
+            out = H.apply_op(case["family"], m, op, state)
+        except Exception as e:
+            ctx.reject(f"operation raised: {case['family']}:{op}: {type(e).__name__}")
+            return
+        if out is not None and op != "pred_skipvar":
+            _psd_report(ctx, "history_covariance_psd", out[1], f"prediction ({op}) after {seq}", family=case["family"], op=op)
+            ctx.expect("history_variance_nonnegative", bool((torch.diagonal(out[1], dim1=-2, dim2=-1) >= -1e-9).all()), f"negative predictive variance after {seq}", family=case["family"])
+    ctx.cell({"family": case["family"], "seq": seq})
 
 
 def _gram(case, ctx, g):
@@ -310,6 +345,19 @@ def _noise(case, ctx, g):
         mfn = S.min_fixed_noise.value(torch.double)
         add = torch.diagonal(lik(d).covariance_matrix - d.covariance_matrix)
         ctx.expect("noise_floor", bool((add >= mfn * (1 - 1e-6)).all()), f"fixed noise {float(add.min()):.3e} below min_fixed_noise {mfn}")
+        # the likelihood of a fantasy model carries the fantasy noise: same floor
+        fl = lik.get_fantasy_likelihood(noise=torch.tensor([0.0, 1e-12, 0.3]))
+        d8 = MVN(torch.zeros(n + 3), torch.eye(n + 3))
+        addf = torch.diagonal(fl(d8).covariance_matrix - d8.covariance_matrix)
+        ctx.expect("noise_floor", bool((addf >= mfn * (1 - 1e-6)).all()), f"fantasy-likelihood noise {float(addf.min()):.3e} below min_fixed_noise {mfn}", where="fantasy_likelihood")
+        Xf, yf = util.randn(g, n, 2), util.randn(g, n)
+        gp = util.GP(Xf, yf, L.FixedNoiseGaussianLikelihood(noise=torch.full((n,), 0.1)), util.build_mean("zero", 2), util.build_kernel({"k": "rbf"}, 2))
+        gp.eval()
+        with torch.no_grad():
+            gp(Xf[:2])
+            fm = gp.get_fantasy_model(util.randn(g, 2, 2), util.randn(g, 2), noise=torch.tensor([0.0, 1e-13]))
+            addm = fm.likelihood.noise
+        ctx.expect("noise_floor", bool((addm >= mfn * (1 - 1e-6)).all()), f"fantasy model's likelihood noise {float(addm.min()):.3e} below min_fixed_noise {mfn}", where="fantasy_model")
         with S.min_fixed_noise(double_value=1e-2):
             lik2 = L.FixedNoiseGaussianLikelihood(noise=tiny)
             add2 = torch.diagonal(lik2(d).covariance_matrix - d.covariance_matrix)
